@@ -163,7 +163,8 @@ def Frame (s s' : SrcSt) : Prop :=
   s'.p.remoteCfg = s.p.remoteCfg ∧ s'.p.tid = s.p.tid ∧ s'.p.closure = s.p.closure ∧ s'.inds = s.inds ∧
   s'.flts = s.flts ∧ s'.fs = s.fs ∧ s'.p.finishedParams = s.p.finishedParams ∧ s'.state = s.state ∧
   s'.p.fileSize = s.p.fileSize ∧ s'.putReq = s.putReq ∧ s'.p.metadataOnly = s.p.metadataOnly ∧
-  s'.queue = [] ∧ s'.faults = s.faults ∧ s'.prov = s.prov
+  s'.queue = [] ∧ s'.faults = s.faults ∧ s'.prov = s.prov ∧ s'.p.checkTimer = s.p.checkTimer ∧
+  s'.p.condCodeEof = s.p.condCodeEof
 
 /-- the i-th tile after `prog`, as a File Data PDU -/
 def tile (conf : Hdr) (F : List UInt8) (seg prog i : Nat) : Pdu :=
